@@ -999,7 +999,7 @@ def pool_empty_object_note(ctx, tmpdir):
 
 
 def run(ctx):
-    ok = common.proofs(ctx, 'C02', EXTRACT, COMPONENTS)
+    ok = common.proofs(ctx, ['C02', 'C02Legacy'], EXTRACT, COMPONENTS)
     ctx.assumptions = [
         'GetObject returns the stored bytes of the requested range (FakeS3 / S3Spec); the body raises its scripted error on the first '
         'read issued once k bytes were returned',
